@@ -227,6 +227,19 @@ def pat_matches(p, v, env):
             env[mid["name"]] = ("s", tuple(items[len(before):len(items) - len(after)]))
         return ok
     if k == "struct":
+        path = (p.get("path") or {}).get("path")
+        if isinstance(v, tuple) and v and v[0] == "obj" and v[1] == path:
+            for f in p.get("fields", []):
+                if f["name"] not in v[2]:
+                    raise Unsupported("struct pattern field %s" % f["name"])
+                if not pat_matches(f["pat"], v[2][f["name"]], env):
+                    return False
+            return True
+        if isinstance(v, tuple) and v and v[0] == "v" and path and path.endswith("::Some") and v[1] == path:
+            flds = p.get("fields", [])
+            return all(pat_matches(f["pat"], v[2][int(f["name"])], env) for f in flds)
+        if isinstance(v, tuple) and v and v[0] == "v" and path and (path.endswith("::Some") or path.endswith("::None")):
+            return False
         raise Unsupported("struct pattern")
     raise Unsupported("pattern kind %r" % k)
 
